@@ -177,6 +177,33 @@ def order_oracle(tr):
     return bad
 
 
+NOEAVES = busdiff.Policy([("default", True, {"send_destination": "*"}), ("default", True, {"receive_sender": "*"}), ("default", True, {"own": "*"})])
+
+
+def oracle_noeaves(tr):
+    """under a policy that grants nobody eavesdropping (no receive rule says eavesdrop="true"): a message with a destination - a name, a
+    unique name, or the bus itself - is seen by its addressee alone, whatever match rules other connections hold"""
+    bad = oracle(tr)
+    tk = Tracker()
+    for i, (per, closed) in enumerate(tr.steps):
+        tk.before(i, tr)
+        op = tr.ops[i]
+        sent = tr.sent(i) if op[0] == "send" else None
+        actor = op[1] if op[0] == "send" else None
+        if sent and actor in tk.names and hexname(fld(sent, "dest")) is not None:
+            me, d = tk.names[actor], hexname(fld(sent, "dest"))
+            owner = None if d == BUS else tk.primary(d)
+            for to, ls in per.items():
+                if to == owner or owner == "?":
+                    continue
+                n = len([l for l in ls if hexname(fld(l, "sender")) == me and fld(l, "ser") == fld(sent, "ser") and fld(l, "t") == fld(sent, "t")])
+                if n:
+                    bad.append((None, "step %d: message %s -> %s reached connection %d (%d copies), which is not its addressee; the policy grants nobody "
+                                      "eavesdropping" % (i, me, d, to, n)))
+        tk.after(i, tr)
+    return bad
+
+
 def run(ctx):
     check.lean_obligations(ctx, MODULE, THEOREMS)
     findings = {e["class"]: e for e in check.load_findings("C05") if e.get("status") == "known"}
@@ -185,6 +212,9 @@ def run(ctx):
                            findings=findings, label="unicast")
     buscheck.run_histories(ctx, n // 2, 90, oracle, gen_kw={"weights": WEIGHTS, "max_conns": 4, "names": [b"com.example.A", b"org.x"]},
                            findings=findings, seed_salt=4, label="unicast-two-names")
+    # would-be eavesdroppers under a policy that grants nobody eavesdropping: messages to names, to unique names and to the bus itself
+    buscheck.run_histories(ctx, n // 2, 80, oracle_noeaves, gen_kw={"weights": dict(WEIGHTS, addmatch=16, query=14), "max_conns": 4},
+                           policy=NOEAVES, findings=findings, seed_salt=13, label="eavesdrop-not-granted")
     # recipients that do not read: their queue at the bus is over max_outgoing_bytes until they read again
     buscheck.run_histories(ctx, n // 2, 80, oracle, gen_kw={"weights": dict(WEIGHTS, stall=5, unstall=4), "max_conns": 4, "no_eavesdrop": True},
                            limits={"outgoing": 20000}, findings=findings, seed_salt=9, label="slow-readers")
